@@ -66,6 +66,16 @@ CLAIMS = {
               "compared with the fresh-machine outcome (specified and real). Random histories of length 60/200 cross "
               "the budget many times over.",
               "DESIGN.md section 6 C07", "TLA+ history machine; TLC-enumerated histories replayed on one real VM value"),
+    "C08": _c("model_checking",
+              "Conc.tla: N machines with private VM state step over shared programs, environments and the global budget, "
+              "one instruction per step; TLC checks Isolation and SharedUntouched on every interleaving of two machines "
+              "(three in the thorough tier) and produces random interleavings, which are replayed on real goroutines with "
+              "the verif hook as the scheduler gate, so that the real VMs interleave at instruction granularity in exactly "
+              "the specified order: every run must return what it returns alone and the shared program and environment "
+              "must be unchanged. Concurrent Compile calls and free-running runs of fresh shared programs are additionally "
+              "executed in a -race build; a race report naming the library is a failure (the detector is an observer: it "
+              "sees the schedules that ran, the model checker and the gate supply the interleavings that matter).",
+              "DESIGN.md section 6 C08", "TLA+ interleaving model; TLC schedules replayed through a scheduler gate on real goroutines; race detector as observer"),
     "C09": _c("exploration",
               "The specification makes Compile and Run functions of their arguments; on the TLC-enumerated corpora each "
               "source is compiled twice (programs compared byte for byte, constant for constant, by value and Go type) and "
